@@ -238,6 +238,18 @@ impl<'a> DpMaster<'a> {
     }
 }
 
+#[cfg(profirust_verif)]
+impl DpMaster<'_> {
+    /// Index of the storage slot the DP cycle is at, or -1 when the cycle is completed
+    /// (verification hook, only compiled with `--cfg profirust_verif`; does not change behaviour).
+    pub fn verif_cycle_index(&self) -> i32 {
+        match self.state.cycle_state {
+            CycleState::DataExchange(i) => i as i32,
+            CycleState::CycleCompleted => -1,
+        }
+    }
+}
+
 impl<'a> crate::fdl::FdlApplication for DpMaster<'a> {
     fn transmit_telegram(
         &mut self,
